@@ -18,7 +18,7 @@ NA = {
 }
 
 PENDING = "applicable to this technique (see DESIGN.md section 4) but its check is not built yet at this commit; not claimed until it is"
-for _p in ("C02", "C06", "C07", "C12", "C16", "C17"):
+for _p in ("C16", "C17"):
 	NA.setdefault(_p, PENDING)
 
 CHECKS = {
@@ -31,8 +31,42 @@ CHECKS = {
   engine="threads"),
 }
 
+CHECKS.update({
+ "C07": dict(
+  level="fault_enumeration",
+  text="Crash-point enumeration plus history simulation. Leg 'enum': for each generated (model architecture, API op) pair a dry run counts how often every call-level seam is hit (model forward, autograd backward, reference generator, custom non-linearity rule, func, shuffle_fn); an exception is then injected at EVERY (seam, k) with each of RuntimeError / ValueError / KeyboardInterrupt, plus every invalid-input variant of the op (N column, out-of-range target, wrong args/reference shapes, wrong channels, int8 input, device='cuda'), each on a fresh copy of the model; afterwards all hook dictionaries must be empty, state_dict bytes / requires_grad flags unchanged, no module switched to training, grad mode restored, and forward output and ordinary gradients (w.r.t. input and every parameter) on a probe batch bit-identical. Exhaustive over crash points within each spec; specs are sampled. Leg 'hist': sessions of 2-8 ops (all 14 model-taking API functions, also with func=deep_lift_shap) on ONE shared model, some carrying a fault, each compared with the same op on a pristine copy (same outcome class, bit-equal results; first clean op after a failure must be correct).",
+  ref="DESIGN.md 4 (C07)",
+  note="Faults only at call-level seams the property names; CPU only; bit-equality relies on deterministic single-threaded torch kernels; leftover scratch attributes (module.input/.output/_NON_LINEAR_OPS) are probes, not violations.",
+  technique="deterministic simulation: exhaustive crash-point (exception) injection at call-level seams + seeded call histories on a shared model vs pristine-copy reference",
+  engine="modelworld"),
+ "C06": dict(
+  level="exploration",
+  text="History simulation with knob randomisation: sessions of 4-14 operations on one shared generated model -- deep_lift_shap over subsets / permutations / duplications of the example set with seeded batch sizes (1, n_shuffles-1, n_shuffles, n_shuffles+1, multiples, coprimes, total+1), three output modes, generator+integer seed or explicit reference tensor, return_references, through marginalize(func=deep_lift_shap), interleaved with perturbations of every process-global the result must not depend on (numpy/torch RNG, numba thread count, model.train(), other API calls on the model, caller thread, and in the fault-injecting leg a failed deep_lift_shap call). Every attribution row is compared with the canonical single-example result, every returned reference bit-for-bit.",
+  ref="DESIGN.md 4 (C06)",
+  note="Attributions compared with tolerance (batching changes BLAS summation order); references bit-exact; random_state always an integer or explicit tensor as the statement requires.",
+  technique="deterministic simulation: seeded call histories + global-state perturbation faults on a shared model vs single-example reference model",
+  engine="modelworld"),
+ "C02": dict(
+  level="exploration",
+  text="Three legs. 'rng': the real dinucleotide_shuffle wrapper code runs around the working-tree source of the Euler walk with every numpy.random.permutation outcome decided by the simulator (seeded uniform, identity, reversal, rotation); outputs must be one-hot, preserve ordered-pair counts and end characters inside the region, leave flanks and the input untouched, and the walk must consume exactly the available transitions. 'sweep': the same with EVERY outcome of every internal permutation enumerated for every sequence of the small scopes (alphabet 2: length 3-8, alphabet 3: 3-7, alphabet 4: 3-6; thorough adds (3,8),(4,7),(4,8)). 'hist': the shipped compiled shuffle / dinucleotide_shuffle under sessions of calls with integer seeds interleaved with perturbations of NumPy's and numba's generators, thread count and caller thread; identical calls must be bit-identical.",
+  ref="DESIGN.md 4 (C02)",
+  note="Legs rng/sweep interpret the walk's source with CPython (numba's permutation(m<=0) semantics reproduced by the seam); seeds < 2**31-n; calls the function declines (ValueError for identical shuffles, regions shorter than 3) are not 'returned' results.",
+  technique="deterministic simulation: RNG-outcome control of the Euler walk (seeded + exhaustive small scope) and seeded call histories with global-RNG/thread perturbations",
+  engine="rngseam"),
+ "C12": dict(
+  level="exploration",
+  text="Leg 'sim': the prange loops of _all_pwm_to_mapping and _fast_hits are re-compiled from source into steppable generators and run on K=1..16 simulated threads with seeded work distribution and interleaving around the real fimo() wrapper; leg 'real': the compiled binary at real thread counts x chunk sizes on generated FASTA+MEME files and on tensor+dict, dim=0/1, return_counts, and reverse-complemented sequences. Oracle: a reference scanner over every start 0..L-w inclusive on both strands (score = sum log2((pwm+eps)/0.25), N contributes 0) with the implementation's own score->p-value tables; reported set must equal the expected set (modulo a 1e-5 band at the float32 threshold), fields and p-values must match, all executions must agree.",
+  ref="DESIGN.md 4 (C12)",
+  note="Tables from the implementation's sequential _pwm_to_mapping (C11 not claimed); ambiguity band at the threshold; sim leg uses NumPy scalar arithmetic for the orchestration; real-thread schedules uncontrolled.",
+  technique="deterministic simulation: seeded thread schedules for the motif-parallel scan + storage-backend switching, against a pure-Python reference scanner",
+  engine="threads"),
+})
+
 ENGINES = [
  {"name": "simkit", "path": "simkit/", "serves_properties": sorted(CHECKS), "kind_free_text": "seeded decision streams, event-log digests, fork-pool runner with crash/hang containment, ddmin minimiser, fresh-process replay confirmation, evidence writer"},
+ {"name": "modelworld", "path": "engines/modelworld.py, engines/modelops.py", "serves_properties": ["C06", "C07"], "kind_free_text": "generated torch models carrying FaultPoint layers, fault plan consulted at every call-level seam, snapshot invariants, the 14 model-taking API ops as generated operations"},
+ {"name": "rngseam", "path": "engines/rngseam.py", "serves_properties": ["C02"], "kind_free_text": "re-binds _fast_shuffle.py_func to globals whose numpy.random.permutation is answered by the simulator (seeded or enumerated)"},
+ {"name": "genome", "path": "engines/genome.py", "serves_properties": ["C12", "C16", "C17"], "kind_free_text": "generated FASTA / MEME / BED / bigWig worlds in the per-run scratch directory"},
  {"name": "threads", "path": "engines/threads.py", "serves_properties": ["C13", "C12"], "kind_free_text": "AST re-compilation of numba prange bodies into steppable generators; simulated thread scheduler; poisoned numpy.empty allocator"},
 ]
 
